@@ -40,8 +40,11 @@ def generate(ctx):
             d["subset"] = rng.random() < 0.6
         else:
             d["trainable_feedback"] = rng.random() < 0.5
+            # each of the five documented transforms is given or omitted on its own
             d["transforms"] = rng.random() < 0.4
             d["in_transforms"] = rng.random() < 0.4
+            if rng.random() < 0.5:
+                d["transform_set"] = sorted(rng.sample(["ffo", "fbo", "lato", "lati", "fbi"], rng.randint(1, 4)))
             d["prefire_neurons"] = rng.random() < 0.5          # build the layer around neuron groups that just spiked
             d["partial_clear_at"] = rng.choice([None, 2, 3, 4])  # clear(submodules=False) / clear(clear_feedback=False) mid-run
             d["partial_clear_kind"] = rng.choice(["layer_only", "components_only"])
@@ -125,6 +128,13 @@ _RNAMES = {"feedfwd_connection": "ff", "lateral_connection": "lat", "feedback_co
 _NKW = {"refrac_lock": False}
 
 
+def _tfset(desc):
+    """which of the recurrent layer's transforms are given (the rest are omitted)"""
+    if "transform_set" in desc:
+        return set(desc["transform_set"])
+    return ({"ffo", "fbo", "lato"} if desc.get("transforms") else set()) | ({"lati", "fbi"} if desc.get("in_transforms") else set())
+
+
 def _layer(desc, parts):
     kind = desc["kind"]
     if kind == "serial":
@@ -137,11 +147,18 @@ def _layer(desc, parts):
         comb = _custom_combine if desc["combine"] == "custom" else desc["combine"]
         return neural.Biclique(cs, ns, combine=comb)
     kw = {}
-    if desc["transforms"]:
-        kw = dict(feedfwd_out_transform=_double, feedback_out_transform=lambda x: x * 0.5, lateral_out_transform=_double)
-    if desc.get("in_transforms"):
-        # documented: applied to the spikes before they enter the lateral / feedback connection (one-to-many: a tuple)
-        kw.update(lateral_in_transform=lambda s: (~s,), feedback_in_transform=lambda s: (s.roll(1, -1),))
+    tf = _tfset(desc)
+    if "ffo" in tf:
+        kw["feedfwd_out_transform"] = _double
+    if "fbo" in tf:
+        kw["feedback_out_transform"] = lambda x: x * -0.5
+    if "lato" in tf:
+        kw["lateral_out_transform"] = _double
+    # documented: applied to the spikes before they enter the lateral / feedback connection (one-to-many: a tuple)
+    if "lati" in tf:
+        kw["lateral_in_transform"] = lambda s: (~s,)
+    if "fbi" in tf:
+        kw["feedback_in_transform"] = lambda s: (s.roll(1, -1),)
     return neural.RecurrentSerial(parts.conns["feedfwd"], parts.conns["lateral"], parts.conns["feedback"],
                                   parts.neurons["feedfwd"], parts.neurons["feedback"],
                                   trainable_feedback=desc["trainable_feedback"], **kw,
@@ -216,15 +233,13 @@ class _Hand:
         ffn, fbn = p.neurons["feedfwd"], p.neurons["feedback"]
         if self.fb_spikes is None:
             self.fb_spikes = torch.zeros((d["B"],) + tuple(fbn.shape), dtype=torch.bool)
+        tf = _tfset(d)
         cff = p.conns["feedfwd"](*x)
-        cfb = p.conns["feedback"](self.fb_spikes.roll(1, -1) if d.get("in_transforms") else self.fb_spikes)
-        if d["transforms"]:
-            drive = cff * 2.0 + cfb * 0.5
-        else:
-            drive = cff + cfb
+        cfb = p.conns["feedback"](self.fb_spikes.roll(1, -1) if "fbi" in tf else self.fb_spikes)
+        drive = (cff * 2.0 if "ffo" in tf else cff) + (cfb * -0.5 if "fbo" in tf else cfb)
         sff = ffn(drive, **(_NKW if d.get("nkw") else {}))
-        clat = p.conns["lateral"](~sff if d.get("in_transforms") else sff)
-        sfb = fbn(clat * 2.0 if d["transforms"] else clat, **(_NKW if d.get("nkw") else {}))
+        clat = p.conns["lateral"](~sff if "lati" in tf else sff)
+        sfb = fbn(clat * 2.0 if "lato" in tf else clat, **(_NKW if d.get("nkw") else {}))
         self.fb_spikes = sfb
         return {"feedfwd": sff, "feedback": sfb}, {"feedfwd": cff, "feedback": cfb, "lateral": clat}
 
@@ -270,6 +285,11 @@ def run_case(ctx, desc):
         ctx.count("sampled." + kind)
         ctx.sample(desc)
     tag = kind + ("." + desc["combine"] if kind == "biclique" else "")
+    if kind == "recurrent":
+        tfs = _tfset(desc)
+        tag += ".tf-" + ("+".join(sorted(tfs)) or "none")
+        if tfs and len(tfs) < 5 and ("fbo" in tfs) != ("ffo" in tfs):
+            ctx.count("recurrent_layers_with_one_sided_output_transforms")
     # ---------------- (a) wiring: layer vs hand-composed twin -------------------------------------------------
     try:
         pL, pH = _Parts(desc), _Parts(desc)
